@@ -6,7 +6,7 @@
                         (None, v) when the enum does not define v (the open value)
    The theorems say the class tables built by EnumType.__new__ answer every lookup with
    [canon], for every class body. *)
-From BP Require Import Base.Prelude Model.Varint Model.Scalar Model.Enum.
+From BP Require Import Base.Prelude Model.Varint Model.Scalar Model.Enum Spec.Varint.
 From BP Require Import Proofs.BytesP Proofs.VarintP Proofs.ScalarP.
 From Coq Require Import Lia ZifyBool.
 
@@ -699,4 +699,41 @@ Theorem json_pinned_rejects_every_open_value body v :
 Proof.
   intros Hn. unfold to_json_el_pinned, class_of. rewrite call_canon.
   apply first_name_None in Hn. rewrite Hn. reflexivity.
+Qed.
+
+(* ---- interoperability at the scalar level ---- *)
+(* the decoder looks at the low 32 bits only *)
+Lemma sign_recover_32_congr raw v :
+  int32 v -> raw mod 2 ^ 32 = v mod 2 ^ 32 -> sign_recover 32 raw = v.
+Proof.
+  unfold int32. intros Hv Hm. unfold sign_recover. rewrite !Z.shiftl_1_l.
+  replace (2 ^ 32 - 1) with (Z.ones 32) by reflexivity.
+  rewrite Z.land_ones by lia. rewrite Hm.
+  assert (H : 0 <= v mod 2 ^ 32 < 2 ^ 32) by (apply Z.mod_pos_bound; lia).
+  change (32 - 1) with 31.
+  rewrite (lxor_signbit (v mod 2 ^ 32) 31) by (change (31 + 1) with 32; lia).
+  destruct (Z.ltb_spec v 0) as [Hneg|Hpos].
+  - assert (E : v mod 2 ^ 32 = v + 2 ^ 32) by (symmetry; apply Z.mod_unique with (-1); lia).
+    rewrite E. destruct (Z.ltb_spec (v + 2 ^ 32) (2 ^ 31)); lia.
+  - rewrite Z.mod_small by lia. destruct (Z.ltb_spec v (2 ^ 31)); lia.
+Qed.
+
+(* every legal encoding of a number congruent to v modulo 2^32 — minimal or padded, the ten-byte
+   sign-extended form, or the five-byte form some encoders write for negative enum numbers — is read as v *)
+Theorem any_encoding_decodes body v raw bs rest :
+  int32 v -> raw mod 2 ^ 32 = v mod 2 ^ 32 -> VarintRep raw bs ->
+  load_varint (bs ++ rest) = Ok (raw, bs, rest) /\
+  enum_post (class_of body) raw = try_value (class_of body) v.
+Proof.
+  intros Hv Hm Hr. split; [apply load_varint_rep; exact Hr|].
+  unfold enum_post. rewrite (sign_recover_32_congr raw v Hv Hm). reflexivity.
+Qed.
+
+Theorem decode_defined_is_canonical body n v :
+  In (n, v) (members_of body) -> int32 v ->
+  in_table (class_of body) (enum_post (class_of body) (v mod 2 ^ 64)) = true /\
+  call (class_of body) v = Ok (enum_post (class_of body) (v mod 2 ^ 64)).
+Proof.
+  intros Hin Hv. destruct (scalar_roundtrip body v Hv) as (_ & _ & _ & _ & -> & _).
+  destruct (by_number body n v Hin) as (n0 & _ & _ & _ & _ & Hc & -> & Ht). split; [exact Ht|exact Hc].
 Qed.
